@@ -57,17 +57,6 @@ pub fn programs12() -> Vec<Prog> {
     p.push(None, Stmt::Fill(Lit::hex(0x1234)));
     p.push(Some("data"), Stmt::Stringz("Hi".into()));
     v.push(Prog::new("loaded-across-xFE00", p, true));
-    // an image with 8192 zero words in the middle and content behind them: the saved initial
-    // state must hold what lies behind the zeros
-    let mut p = Program::default();
-    p.push(Some("first"), Stmt::Mem(PcRel::Ld, 0, lbl("addr")));
-    p.push(Some("slot"), Stmt::Named(0x22, "puts"));
-    p.push(Some("end"), Stmt::Named(0x25, "halt"));
-    p.push(Some("addr"), Stmt::Fill(Lit::hex(0x5005)));
-    p.push(Some("data"), Stmt::Fill(Lit::hex(0x0000)));
-    p.push(None, Stmt::Blkw(Lit::dec(8192)));
-    p.push(Some("msg"), Stmt::Stringz("behind".into()));
-    v.push(Prog::new("zero-block-inside-image", p, true));
     v
 }
 
@@ -118,27 +107,62 @@ fn many_histories() -> Vec<Vec<Cmd>> {
 }
 
 fn judge_many(n: u16, hi: usize) -> Result<(), Mismatch> {
-    let prog = store_loop(n);
+    judge_small_menu(&store_loop(n), hi, "many-writes")
+}
+
+fn judge_small_menu(prog: &Prog, hi: usize, family: &str) -> Result<(), Mismatch> {
     let acts: Vec<Action> = many_histories()[hi].iter().cloned().map(Action::of).collect();
     let actions: Vec<&Action> = acts.iter().collect();
     let init = prog.reference().init;
-    let r = run_real_fuel(&prog, &actions, Tail::Exit, true, MANY_FUEL).map_err(|(sig, what)| Mismatch { sig: format!("many-writes/{sig}"), what })?;
+    let r = run_real_fuel(prog, &actions, Tail::Exit, true, MANY_FUEL).map_err(|(sig, what)| Mismatch { sig: format!("{family}/{sig}"), what })?;
     if !matches!(r.ended, Ended::Returned) {
-        return Err(Mismatch { sig: "many-writes/session-ended".into(), what: format!("the session ended {:?} before `exit`", r.ended) });
+        return Err(Mismatch { sig: format!("{family}/session-ended"), what: format!("the session ended {:?} before `exit`", r.ended) });
     }
     if let Some(d) = machine_diff(&r.machine, &init) {
-        return Err(Mismatch { sig: format!("many-writes/not-initial/{}", machine_diff_kind(&r.machine, &init).unwrap_or("?")), what: format!("after a history that stored into {n} words and ends in `reset` the machine differs from the one right after load: {d}") });
+        return Err(Mismatch { sig: format!("{family}/not-initial/{}", machine_diff_kind(&r.machine, &init).unwrap_or("?")), what: format!("after a history on {} that ends in `reset` the machine differs from the one right after load: {d}", prog.name) });
     }
     // ... and the run after the reset behaves like a fresh one
-    let q = run_real_fuel(&prog, &actions, Tail::Quit, true, MANY_FUEL).map_err(|(sig, what)| Mismatch { sig: format!("many-writes/{sig}"), what })?;
-    let p = run_image(&prog.image.raw(), Env::new(true), MANY_FUEL).map_err(|e| Mismatch { sig: "many-writes/plain-run".into(), what: format!("{e:?}") })?.map_err(|e| Mismatch { sig: "many-writes/plain-run".into(), what: format!("{e:?}") })?;
+    let q = run_real_fuel(prog, &actions, Tail::Quit, true, MANY_FUEL).map_err(|(sig, what)| Mismatch { sig: format!("{family}/{sig}"), what })?;
+    let p = run_image(&prog.image.raw(), Env::new(true), MANY_FUEL).map_err(|e| Mismatch { sig: format!("{family}/plain-run"), what: format!("{e:?}") })?.map_err(|e| Mismatch { sig: format!("{family}/plain-run"), what: format!("{e:?}") })?;
     if q.ended != p.ended {
-        return Err(Mismatch { sig: "many-writes/run-after-reset/ends-differently".into(), what: format!("run after reset ended {:?}, a fresh run ends {:?}", q.ended, p.ended) });
+        return Err(Mismatch { sig: format!("{family}/run-after-reset/ends-differently"), what: format!("run after reset ended {:?}, a fresh run ends {:?}", q.ended, p.ended) });
     }
     if let Some(d) = machine_diff(&q.machine, &p.machine) {
-        return Err(Mismatch { sig: format!("many-writes/run-after-reset/{}", machine_diff_kind(&q.machine, &p.machine).unwrap_or("?")), what: format!("final machine of the run after reset differs from a fresh run: {d}") });
+        return Err(Mismatch { sig: format!("{family}/run-after-reset/{}", machine_diff_kind(&q.machine, &p.machine).unwrap_or("?")), what: format!("final machine of the run after reset differs from a fresh run: {d}") });
     }
     Ok(())
+}
+
+/// Programs with large images; judged under the small menu of histories (assembling them for every
+/// transition of the BFS would take minutes).
+pub fn big_image_programs() -> Vec<Prog> {
+    let mut v = Vec::new();
+    // an image with 8192 zero words in the middle and content behind them: the saved initial
+    // state must hold what lies behind the zeros
+    let mut p = Program::default();
+    p.push(Some("first"), Stmt::Mem(PcRel::Ld, 0, lbl("addr")));
+    p.push(Some("slot"), Stmt::Named(0x22, "puts"));
+    p.push(Some("end"), Stmt::Named(0x25, "halt"));
+    p.push(Some("addr"), Stmt::Fill(Lit::hex(0x5005)));
+    p.push(Some("data"), Stmt::Fill(Lit::hex(0x0000)));
+    p.push(None, Stmt::Blkw(Lit::dec(8192)));
+    p.push(Some("msg"), Stmt::Stringz("behind".into()));
+    v.push(Prog::new("zero-block-inside-image", p, true));
+    // an image that fills memory exactly: the loader's implicit HALT is the word xFFFF, the last
+    // one a copy of the machine has to carry
+    let mut p = Program::default();
+    p.push(Some("first"), Stmt::Mem(PcRel::Ldi, 0, lbl("ptr")));
+    p.push(Some("slot"), Stmt::Named(0x26, "putn"));
+    p.push(Some("end"), Stmt::Named(0x25, "halt"));
+    p.push(Some("ptr"), Stmt::Fill(Lit::hex(0xFFFF)));
+    p.push(Some("data"), Stmt::Blkw(Lit::hex(0xCFFB)));
+    v.push(Prog::new("image-ends-at-xFFFF", p, true));
+    v
+}
+
+fn judge_big(pi: usize, hi: usize) -> Result<(), Mismatch> {
+    let progs = big_image_programs();
+    judge_small_menu(&progs[pi], hi, "big-image")
 }
 
 pub fn alphabet(prog: &Prog) -> Vec<Action> {
@@ -280,19 +304,47 @@ pub fn run(ctx: &Ctx) -> i32 {
     for p in parts {
         acc.merge(p);
     }
+    // large images (a zero block inside; an image that ends at xFFFF) under the same menu
+    let nbig = big_image_programs().len();
+    let parts = crate::isolate::pooled(Some(Env::new(true)), nbig * nh, 1, Acc::new, |acc, i| {
+        let (pi, hi) = (i / nh, i % nh);
+        acc.eval("big-image");
+        let mut r = judge_big(pi, hi);
+        if r.is_err() {
+            r = crate::isolate::confirm_fresh(|| judge_big(pi, hi));
+        }
+        match r {
+            Ok(()) => {
+                acc.nontrivial();
+                acc.gate("big-image-reset-checked");
+                acc.outcome(format!("big-image/history-{hi}"));
+            }
+            Err(m) => {
+                acc.outcome(format!("violation:{}", m.sig));
+                acc.violation(format!("C12/{}", m.sig), m.what, json!({"check": "c12", "big_image": pi, "history_index": hi, "program": big_image_programs()[pi].name}));
+            }
+        }
+    });
+    for p in parts {
+        acc.merge(p);
+    }
     finish(
         ctx,
         acc,
         Level { category: "model_checking", bfs: Some((stats.states, stats.transitions, 4 * stats.transitions, stats.max_depth)) },
-        "explicit-state BFS over histories of executing and mutating commands (step, step into 3, continue, move into two registers, into the program's own code, its data, the stack area and below the origin, goto, eval ST/STR storing into data and the stack, break add, reset) on a self-modifying program, a loop at origin x0400 and a program storing below the origin and above user space (also through eval STR with a base register pointing outside user space). For every state reached the real debugger is run four times: history; history+reset (all registers, PC, CC and all 65,536 memory words must equal the reference machine right after load); history+reset+reset; history+reset+quit (end, final machine and output must equal a plain run of the image). Plus a many-writes section: a loop storing into n consecutive words for every n in {2^k-1, 2^k, 2^k+1 : k <= 15} and n = xBE00 (all of x4000..xFDFF), under 5 histories over {continue, step into 9, reset} ending in reset (machine equals the loaded one; a run after it equals a fresh run). non-trivial = states on which all four agreed",
+        "explicit-state BFS over histories of executing and mutating commands (step, step into 3, continue, move into two registers, into the program's own code, its data, the stack area and below the origin, goto, eval ST/STR storing into data and the stack, break add, reset) on a self-modifying program, a loop at origin x0400 and a program storing below the origin and above user space (also through eval STR with a base register pointing outside user space). For every state reached the real debugger is run four times: history; history+reset (all registers, PC, CC and all 65,536 memory words must equal the reference machine right after load); history+reset+reset; history+reset+quit (end, final machine and output must equal a plain run of the image). Plus a many-writes section: a loop storing into n consecutive words for every n in {2^k-1, 2^k, 2^k+1 : k <= 15} and n = xBE00 (all of x4000..xFDFF), under 5 histories over {continue, step into 9, reset} ending in reset (machine equals the loaded one; a run after it equals a fresh run); the same menu on two programs with large images (8192 zero words inside with a string behind them; an image that fills memory so that the loader's HALT is the word xFFFF). non-trivial = states on which all four agreed",
         !stats.capped,
-        &["reset-checked", "memory-mutated-before-reset", "many-writes-reset-checked"],
+        &["reset-checked", "memory-mutated-before-reset", "many-writes-reset-checked", "big-image-reset-checked"],
         &["initial machine = refmodel::vm::Machine::load of the reference image (C01/C03 bind it to the real loader)"],
         json!({"depth": depth, "states": stats.states, "per_level": stats.per_level, "capped": stats.capped}),
     )
 }
 
 pub fn replay(_ctx: &Ctx, case: &Value) -> Option<Option<String>> {
+    if let Some(pi) = case["big_image"].as_u64() {
+        let hi = case["history_index"].as_u64()? as usize;
+        return Some(crate::isolate::confirm_fresh(|| judge_big(pi as usize, hi)).err().map(|m| format!("{}: {}", m.sig, m.what)));
+    }
     if let Some(n) = case["many_writes"].as_u64() {
         let hi = case["history_index"].as_u64()? as usize;
         return Some(crate::isolate::confirm_fresh(|| judge_many(n as u16, hi)).err().map(|m| format!("{}: {}", m.sig, m.what)));
